@@ -92,6 +92,13 @@ class LoggingEngine(object):
         with open(self.sigfile[i], 'w') as f:
           f.write('[{"stop": true}]')
         self.events.append(['raise', i])
+      elif g['sig'] and g.get('pre') and (
+          not g['raiseAt'] or self.mcalls[i] < g['raiseAt']):
+        # the stop predicate's table is exported every round; while it is
+        # empty the file is empty: not a raise (no event), no sleeping, so
+        # the later non-empty write falls into the same second
+        with open(self.sigfile[i], 'w') as f:
+          f.write('')
     self.events.append(['run', a])
     if len(self.events) > self.budget:
       raise Abort('call budget exceeded (%d)' % self.budget)
@@ -395,9 +402,13 @@ def RunManyCase(case):
 # DuckDB-compiled plans with stop signals on a stub runner
 
 def RunStubCase(case):
-  """case: {'id', 'text', 'pred', 'raise_at'}.  The stub runner executes
-  nothing; on the raise_at-th call for a member of the signalled iteration it
-  writes the compiled stop file first (the event order is exact)."""
+  """case: {'id', 'text', 'pred', 'round', 'pre'}.  The stub runner executes
+  nothing.  It plays the engine's part for the compiled stop signal: the
+  statements that `COPY ... TO <stop file>` (re)write that file when they run:
+  EMPTY in their rounds before `round` (only if `pre`, otherwise the file is
+  absent until then) and NON-EMPTY in round `round` - without sleeping, so all
+  writes fall into the same second.  Rounds are counted on the writers that
+  are members of the signalled iteration; the event order is exact."""
   m = Mods()
   out = {'id': case['id'], 'ev': [], 'end': 'ok', 'res': []}
   err = io.StringIO()
@@ -415,14 +426,20 @@ def RunStubCase(case):
     cfg, stmts, problems = PlanToCfg(executions)
     preambles = {e.preamble for e in executions}
     itof = {}
+    writers = {}
     for i, g in enumerate(cfg['iters']):
       for a in g['members']:
         itof[a] = i + 1
       if g['sig']:
-        g['raiseAt'] = case['raise_at']
+        g['raiseAt'] = -1            # filled in when the signal is raised
         files.append(g['stop_signal'])
+        for k, st in enumerate(stmts):
+          if any(g['stop_signal'] in v for v in st['sqls']):
+            writers[k + 1] = i + 1
+    wcalls = {}
     mcalls = {}
-    budget = 40 + 4 * cfg['n'] + 4 * case['raise_at'] * max(
+    raised = set()
+    budget = 60 + 4 * cfg['n'] + 8 * case['round'] * max(
         [len(g['members']) for g in cfg['iters']] + [1])
     state = {'calls': 0}
 
@@ -430,13 +447,21 @@ def RunStubCase(case):
       state['calls'] += 1
       k = MapCall(sql, stmts, preambles)
       if k > 0 and k in itof:
-        i = itof[k]
-        mcalls[i] = mcalls.get(i, 0) + 1
+        mcalls[itof[k]] = mcalls.get(itof[k], 0) + 1
+      if k > 0 and k in writers and writers[k] not in raised:
+        i = writers[k]
         g = cfg['iters'][i - 1]
-        if g['sig'] and g['raiseAt'] and mcalls[i] == g['raiseAt']:
+        if itof.get(k) == i:
+          wcalls[i] = wcalls.get(i, 0) + 1
+        if itof.get(k) == i and wcalls[i] == case['round']:
           with open(g['stop_signal'], 'w') as f:
             f.write('[{"logica_value": true}]')
+          raised.add(i)
+          g['raiseAt'] = mcalls[i]
           out['ev'].append(['raise', i])
+        elif case['pre']:
+          with open(g['stop_signal'], 'w') as f:
+            f.write('')
       if k != 0:
         out['ev'].append(['run', k if k > 0 else cfg['n'] + 1])
       if state['calls'] > budget:
@@ -459,10 +484,15 @@ def RunStubCase(case):
       for f in files:
         if f and os.path.exists(f):
           os.unlink(f)
+  for g in cfg['iters']:
+    if g['raiseAt'] < 0:
+      g['raiseAt'] = 0
   out['cfg'] = PublicCfg(cfg)
   out['_'] = {'origin': 'stub', 'text': case['text'], 'problems': problems,
               'stmts': ['%s:%s' % s['key'] for s in stmts],
-              'raise_at': case['raise_at'], 'pred': case['pred']}
+              'round': case['round'], 'pre': case['pre'],
+              'pred': case['pred'], 'writers': len(writers),
+              'raised': len(raised)}
   return out
 
 
@@ -656,6 +686,47 @@ def ThreeRequestsCase():
           'origin': 'compiled', 'meta': {'recursive': [], 'ground':
                                          ['Grand', 'Cnt'], 'data': False,
                                          'multi_rename': True}}
+
+
+CHAIN_NAMES = ['Alpha', 'Beta', 'Gamma', 'Omega']
+
+
+def ChainCases(full):
+  """@Ground-ed chains P1 -> P2 -> P3 -> P4 (P1 facts) with the names permuted
+  over the chain positions, so that the sort order of names (SortActions'
+  tie-break; '⤓' sorts last) is adversarial to the dependency order.  Requests:
+  every predicate alone and every subset of size 2..3 (intermediates
+  included).  full=False: the 6 orders of the first three names, requests over
+  positions 2..4; full=True: all 24 orders, requests over all positions."""
+  cases = []
+  perms = list(itertools.permutations(CHAIN_NAMES)) if full else [
+      q + (CHAIN_NAMES[3],) for q in itertools.permutations(CHAIN_NAMES[:3])]
+  for n, names in enumerate(perms):
+    lines = ['@Engine("sqlite");']
+    for j, name in enumerate(names):
+      lines.append('@Ground(%s);' % name)
+      if j == 0:
+        lines.append('%s(1); %s(2); %s(3); %s(4);' % ((name,) * 4))
+      else:
+        lines.append('%s(x) distinct :- %s(x), x != %d;' % (
+            name, names[j - 1], 100 + j))
+    req = list(names) if full else list(names[1:])
+    subsets = [[p] for p in req]
+    k = 0
+    for size in (2, 3):
+      for c in itertools.combinations(req, size):
+        k += 1
+        subsets.append(list(c) if (k + n) % 2 else list(reversed(c)))
+    adversarial = [names[j] for j in range(2, 4)
+                   if any(names[a] > names[b]
+                          for a in range(j) for b in range(a + 1, j))]
+    cases.append({'id': 'chain-%s' % ''.join(x[0] for x in names),
+                  'text': '\n'.join(lines) + '\n', 'finals': req[-2:],
+                  'subsets': subsets, 'pre_sql': [], 'origin': 'compiled',
+                  'meta': {'recursive': [], 'ground': list(names),
+                           'data': False, 'chain': list(names),
+                           'adversarial': adversarial}})
+  return cases
 
 
 def StubPrograms():
